@@ -280,6 +280,26 @@ def run_case(rng, tier, case):
                 case.check('split.fixed_window_covers_same_steps', steps_u == steps_s, nonvacuous=bool(steps_u), date=str(dq), only_unsplit=sorted(steps_u - steps_s)[:5], only_split=sorted(steps_s - steps_u)[:5])
         except Exception as e:
             case.event('fixed_window_probe_failed:' + type(e).__name__)
+    if rs.solved and rng.random() < 0.3:
+        # rolling re-planning with the split: the first part of the horizon (reaching beyond the first interval) fixed to the split solution just found - the
+        # variables of the window carry exactly those values (each interval takes ITS part of the solution vector)
+        try:
+            kq = int(rng.integers(max(1, T // 3), T + 1))
+            xg = np.asarray(rs.res.x, float).copy()
+            rfx2 = flow.run_portfolio(spec, split=size, do_optimize=False, fix_time_window={'I': np.arange(T) < kq, 'x': xg.copy()}, skip_nodes=skip)
+            if rfx2.ok and len(rfx2.op.ops) == n_int:
+                l1 = np.concatenate([np.asarray(o.l, float) for o in rfx2.op.ops]); u1 = np.concatenate([np.asarray(o.u, float) for o in rfx2.op.ops])
+                m2 = rfx2.op.mapping
+                if len(l1) == len(xg) and len(m2):
+                    inw = np.zeros(len(xg), bool); inw[np.unique(np.asarray(m2.index)[(m2['time_step'] < kq).values]).astype(int)] = True
+                    okv = bool(np.all(np.abs(l1[inw] - xg[inw]) <= 1e-9 * (1 + np.abs(xg[inw]))) and np.all(np.abs(u1[inw] - xg[inw]) <= 1e-9 * (1 + np.abs(xg[inw]))))
+                    badv = np.where(inw & ((np.abs(l1 - xg) > 1e-9 * (1 + np.abs(xg))) | (np.abs(u1 - xg) > 1e-9 * (1 + np.abs(xg)))))[0]
+                    case.check('split.fixed_window_carries_given_values', okv, nonvacuous=bool(inw.any()) and kq > 1, steps_fixed=kq, n_window_vars=int(inw.sum()), first_bad=badv[:4].tolist(),
+                               l=l1[badv[:3]].tolist(), given=xg[badv[:3]].tolist())
+            elif not rfx2.ok:
+                case.check('split.fixed_window_setup_works', False, error=flow.describe_error(rfx2), steps_fixed=kq)
+        except Exception as e:
+            case.event('fixed_values_probe_failed:' + type(e).__name__)
     if ru.solved:
         v_un = float(ru.res.value)
         if cls == 'uncoupled':
